@@ -218,9 +218,20 @@ def decode(contents, kind, shape):
     if kind == "mask": return a.reshape(shape).astype(bool)
     return a.reshape(shape)
 
-def make(kind, values, mask2d, store_native, normalize=False):
+_SHARED_MASKS = {}
+def shared_mask(aa, mask2d):
+    """ONE Mask2D object per mask pattern for the history being run: structures built with "share" hold the same object"""
+    key = str(mask2d)
+    if key not in _SHARED_MASKS: _SHARED_MASKS[key] = aa.Mask2D(mask=np.array(mask2d, dtype=bool), pixel_scales=GEOM["ps"], origin=GEOM["origin"])
+    return _SHARED_MASKS[key]
+def make(kind, values, mask2d, store_native, normalize=False, share=False):
     """the public constructor of each kind, with the fixed side attributes"""
     aa = import_aa()
+    if share and kind in ("array", "kernel", "grid"):
+        m = shared_mask(aa, mask2d)
+        if kind == "array": return aa.Array2D(values=values, mask=m, store_native=store_native)
+        if kind == "kernel": return aa.Kernel2D(values=values, mask=m, store_native=store_native, normalize=normalize)
+        return aa.Grid2D(values=values, mask=m, store_native=store_native, over_sampling=aa.OverSamplingUniform(sub_size=SUB))
     if kind == "array": return aa.Array2D(values=values, mask=_mask(aa, mask2d), store_native=store_native)
     if kind == "kernel": return aa.Kernel2D(values=values, mask=_mask(aa, mask2d), store_native=store_native, normalize=normalize)
     if kind == "grid":
@@ -435,7 +446,7 @@ class Runner:
                     if type(e).__name__ not in SIZE_EXC: raise
             cop = f"OConstruct {csrc} {cmask(mm)} {cbool(is_native)} {cbool(sn)} {cnorm}"
             try:
-                if via == "ctor": real = make(kind, val, mask2d, sn, normalize=norm)
+                if via == "ctor": real = make(kind, val, mask2d, sn, normalize=norm, share=bool(s.get("share")))
                 elif via == "native": real = val.native              # Array2D / Grid2D / VectorYX2D (values=self, mask=self.mask, store_native=True)
                 elif via == "slim": real = val.slim
                 elif via == "normalized": real = val.normalized      # Kernel2D(values=self, mask=self.mask, normalize=True)
@@ -553,8 +564,9 @@ def run_hist(inp):
     ps = g.get("ps", 1.0)
     GEOM["ps"] = tuple(ps) if isinstance(ps, list) else ps
     GEOM["origin"] = tuple(g.get("origin", (0.0, 0.0)))
+    _SHARED_MASKS.clear()
     try: return run_hist0(inp)
-    finally: GEOM["ps"], GEOM["origin"] = 1.0, (0.0, 0.0)
+    finally: GEOM["ps"], GEOM["origin"] = 1.0, (0.0, 0.0); _SHARED_MASKS.clear()
 def run_hist0(inp):
     r = Runner()
     aux_before = None
@@ -1331,7 +1343,9 @@ GNODES = {
                ("inv", "mapped_reconstructed_data_dict", GP), ("inv", "mapped_reconstructed_data", GC),
                ("inv", "mapped_reconstructed_image_dict", GP), ("inv", "mapped_reconstructed_image", GC), ("inv", "regularization_term", GC),
                ("inv", "log_det_curvature_reg_matrix_term", GC), ("inv", "log_det_regularization_matrix_term", GC),
-               ("ds", "signal_to_noise_map", GP)],
+               ("ds", "signal_to_noise_map", GP),
+               ("vis", "amplitudes", GC), ("ds", "amplitudes", GP), ("ds", "dirty_image", GP), ("ds", "dirty_noise_map", GP),
+               ("ds", "uv_distances", GP), ("ds", "w_tilde", GP), ("hold", "ds2", GC), ("ds2", "grids", GC), ("ds2", "amplitudes", GP)],
 }
 GINST = {0: "mesh", 1: "mesh", 2: "fit", 3: "chain", 4: "interf"}
 class Holder:
@@ -1375,7 +1389,8 @@ def build_interf(cfg):
     mapper = aa.Mapper(mapper_grids=mg, over_sampler=grid.over_sampler, regularization=aa.reg.Constant(coefficient=cfg.get("coeff", 1.0)))
     settings = aa.SettingsInversion(use_w_tilde=cfg.get("w_tilde", True), no_regularization_add_to_curvature_diag_value=1.0)
     inv = aa.Inversion(dataset=it, linear_obj_list=[mapper], settings=settings)      # through the factory (D12: settings stay as given)
-    return {"ds": it, "mapper": mapper, "inv": inv}, [m, vis_nd, nm_nd, uv, mask, vis, nm, osd, settings]
+    osd2 = aa.OverSamplingDataset(pixelization=aa.OverSamplingUniform(sub_size=2))
+    return {"ds": it, "vis": vis, "mapper": mapper, "inv": inv, "hold": Holder(it, osd2, None)}, [m, vis_nd, nm_nd, uv, mask, vis, nm, osd, osd2, settings]
 def gbuild(inst, cfg):
     if inst in (0, 1): return build_mesh_graph(cfg)
     if inst == 2:
@@ -1394,7 +1409,7 @@ def gvalue(parts, node, cfg):
     owner, name, kind = node
     o = gowner(parts, owner, bind=True)
     if owner == "hold" and name in ("ds2", "ds3", "ds4"):
-        d = o.get(name); return [d.data, d.noise_map, d.over_sampling.uniform.sub_size]
+        d = o.get(name); return [d.data, d.noise_map, getattr(d.over_sampling.uniform, "sub_size", None), getattr(d.over_sampling.pixelization, "sub_size", None)]
     if name == "noise_map.native": return o.noise_map.native
     if name == "interp": return o.interpolated_array_from(values=np.array(cfg["values"], dtype=float), shape_native=(5, 4))
     if name == "_array": return o._array
@@ -1408,7 +1423,9 @@ def gvalue(parts, node, cfg):
 def gencode(v, name):
     if name == "grids": return view_grids(v)
     if name == "convolver": return view_convolver(v)
-    if name == "w_tilde": return view_w_tilde(v)
+    if name == "w_tilde":
+        if hasattr(v, "w_matrix"): return enc_val(v.w_matrix) + enc_val(v.curvature_preload) + enc_val(v.dirty_image)
+        return view_w_tilde(v)
     try: return enc_val(v)
     except TypeError: return [zlib.crc32(repr(sorted((k, str(x)) for k, x in leaves(v, "v").items())).encode())]
 def gread_node(parts, node, cfg):
@@ -1588,6 +1605,7 @@ def gen_history(rng, n_steps, flavour, allow_d8=False):
         st = {"o": "construct", "src": ["obj" if from_obj else "in", i_or_j], "cls": kind, "mask": mask, "store_native": sn}
         if normalize: st["normalize"] = True
         if via != "ctor": st["via"] = via
+        elif kind in ("array", "kernel", "grid") and rng.random() < 0.4: st["share"] = True
         g.steps.append(st)
         if not ok: return None
         per = KINDS[kind].per
